@@ -251,7 +251,9 @@ def update_dictionary(current, update):
             for added_value in value:
                 added_key = added_value["key"]
                 added_state = added_value["state"]
-                result[added_key] = added_state
+                # keep the caller's state object out of the store so
+                # that later in-place updates do not modify the update
+                result[added_key] = copy.copy(added_state)
         elif key == "_delete":
             for k in value:
                 del result[k]
